@@ -235,6 +235,32 @@ CHECKS = {
         design_ref="DESIGN.md section 4, C20 and section 5",
         note=TB_B + " Finite-domain choices only. Known findings are matched by (label, state) so any other violation is still reported.",
     ),
+    "C16": dict(
+        category="model_checking",
+        technique="dynamic symbolic execution (symrun/z3) of the real ConsumerGroup/Coordinator with real Consumers and the real assignment code against a scripted coordinator: symbolic generation ids, symbolic outcomes per group request, symbolic interleaving and stop point, from a catalogue of deep states",
+        text="Bounded symbolic model checking of generation fencing on the real ConsumerGroup + Coordinator with real partition Consumers. "
+             "Generation ids are z3 integers increasing by symbolic steps; every group request (coordinator lookup, join as leader or follower, "
+             "partition lookup, sync, heartbeat, commit, leave) is answered with ok or a symbolic group error within a fault budget; the order of "
+             "replies and timers and the moment of stop() are symbolic. Scripts start fresh or from four deep states reached by concrete prefixes "
+             "(stable; heartbeat in flight; auto-commit and heartbeat in flight; rejoining with the old heartbeat unanswered). Monitors after every "
+             "event: running consumers belong to the current generation and assignment, commits/sync/heartbeats carry the current generation and "
+             "member, no consumer runs when JoinGroup is sent, evicted members stop consumers, at most one join/sync exchange, heartbeats only "
+             "while stable, no membership request after stop() is called and nothing at all after it completes.",
+        design_ref="DESIGN.md section 4, C16",
+        note=TB_B + " Reading of 'after stop': heartbeats may continue while the consumers shut down, none after the LeaveGroup; stale heartbeat replies can only say the generation moved on.",
+    ),
+    "C17": dict(
+        category="model_checking",
+        technique="dynamic symbolic execution (symrun/z3) of the real ConsumerGroup/Coordinator under symbolic fault injection at every step of the join protocol, from a catalogue of deep states, with a deterministic bounded settling phase",
+        text="Bounded symbolic model checking of progress on the same world as C16: a failure of any kind (each retriable group error, timeout, "
+             "KafkaUnavailableError from the metadata or partition lookups, a non-Kafka exception) can be injected at every step within a fault "
+             "budget. After every event the member must be joining, stable with the heartbeat timer running, or have a join_and_sync call "
+             "scheduled; after a retriable error a rejoin is scheduled within the documented back-off; a non-Kafka error surfaces on the start "
+             "Deferred; once faults cease a deterministic settling phase (prompt coordinator, <= fatal back-off + 35 s of virtual time) must reach "
+             "a stable member whose running consumers equal its assignment. One genuine defect pinned by an upstream test is a known finding.",
+        design_ref="DESIGN.md section 4, C17 and section 5",
+        note=TB_B + " Reads Coordinator._rejoin_needed/_rejoin_d/_heartbeat_looper to observe idleness. Bounded fault counts and a bounded settling horizon; unbounded liveness is outside the claim.",
+    ),
 }
 
 NOT_YET = "check not built yet in this session; see DESIGN.md section 4 for the planned solver-based harness"
